@@ -25,6 +25,11 @@ type c09Msg struct {
 	OtherApp  uint32 // an application id under which the same command code is a different key
 	OtherCode uint32
 	OtherName string // short name of another command
+	// Undefined: the message's dictionary defines no such command for this application nor for the
+	// base application (Short is the short name the command has in another application, one that
+	// AVP lookups - not command lookups - reach through the parent table). Such a message can only
+	// be built through the API; only the catch-all may see it.
+	Undefined bool
 }
 
 var c09Msgs = []c09Msg{
@@ -36,6 +41,10 @@ var c09Msgs = []c09Msg{
 	{Priv: true, App: 0, Code: 999, Short: "XP", OtherApp: 7, OtherCode: 280, OtherName: "WD"},  // a command the default dictionary lacks
 	{Priv: true, App: 7, Code: 999, Short: "XP", OtherApp: 0, OtherCode: 280, OtherName: "WD"},  // ... reached through the fallback to the private base
 	{Priv: true, App: 7, Code: 280, Short: "WD", OtherApp: 0, OtherCode: 999, OtherName: "DW"}, // a code the private base names differently
+	// commands that exist only in an application the AVP parent table leads to
+	{Undefined: true, App: 16777251, Code: 272, Short: "CC", OtherApp: 4, OtherCode: 316, OtherName: "UL"},
+	{Undefined: true, App: 16777238, Code: 265, Short: "AA", OtherApp: 1, OtherCode: 272, OtherName: "CC"},
+	{Undefined: true, App: 4, Code: 265, Short: "AA", OtherApp: 1, OtherCode: 272, OtherName: "CC"},
 }
 
 var c09Priv *dict.Parser
@@ -66,6 +75,7 @@ type C09Case struct {
 	Req    bool
 	Subset int // bit i set = key i registered
 	Rereg  int // -1 none; otherwise key index registered a second time
+	Extra  uint8 // further command flag bits set besides R (P 0x40, E 0x20, T 0x10, reserved 0x0f)
 }
 
 func (c C09Case) Desc() string {
@@ -79,6 +89,9 @@ func (c C09Case) Desc() string {
 	s := fmt.Sprintf("message app=%d code=%d request=%v registrations={%s}", m.App, m.Code, c.Req, strings.Join(ks, ","))
 	if c.Rereg >= 0 {
 		s += " re-registered " + c09Keys[c.Rereg]
+	}
+	if c.Extra != 0 {
+		s += fmt.Sprintf(" further flag bits %#x", c.Extra)
 	}
 	return s
 }
@@ -128,7 +141,11 @@ func c09Eval(cs C09Case) string {
 		}
 		// reference decision table
 		want := ""
-		for _, k := range []string{"idxK", "nameK", "ALL"} {
+		levels := []string{"idxK", "nameK", "ALL"}
+		if m.Undefined {
+			levels = []string{"ALL"}
+		}
+		for _, k := range levels {
 			i := indexOf(c09Keys, k)
 			if cs.Subset&(1<<uint(i)) != 0 {
 				want = k
@@ -138,12 +155,16 @@ func c09Eval(cs C09Case) string {
 				break
 			}
 		}
-		flags := uint8(0)
+		flags := cs.Extra
 		if cs.Req {
-			flags = 0x80
+			flags |= 0x80
 		}
 		msg := diam.NewMessage(m.Code, flags, m.App, 1, 2, c09Dict(m))
-		if _, err := c09Dict(m).FindCommand(m.App, m.Code); err != nil {
+		if m.Undefined {
+			if cmd, err := c09Dict(m).FindCommand(m.App, m.Code); err == nil {
+				return fmt.Sprintf("the dictionary defines command %d neither for application %d nor for the base application, yet FindCommand resolves it to %q", m.Code, m.App, cmd.Short)
+			}
+		} else if _, err := c09Dict(m).FindCommand(m.App, m.Code); err != nil {
 			return "the message's own dictionary defines this command (directly or through its base application) but FindCommand does not resolve it: " + err.Error()
 		}
 		mux.ServeDIAM(nil, msg)
@@ -264,6 +285,7 @@ func c09HistEval(h C09Hist) string {
 				continue
 			}
 			fired = nil
+			flags := flags | []uint8{0, 0x40, 0x10, 0x20, 0x7f}[(step+len(h.Ops))%5]
 			panicNow = o == 9
 			func() {
 				defer func() {
@@ -336,7 +358,12 @@ func runC09(ctx *ev.Ctx) {
 					if rr >= 0 && sub&(1<<uint(rr)) == 0 {
 						continue
 					}
-					cs := C09Case{Msg: mi, Req: req, Subset: sub, Rereg: rr}
+					if c09Msgs[mi].Undefined && sub&1 != 0 {
+						continue // an exact-index registration for an undefined command is outside the statement
+					}
+					// the other command flag bits rotate with the case: dispatch looks at R only
+					extras := []uint8{0, 0x40, 0x10, 0x20, 0x7f}
+					cs := C09Case{Msg: mi, Req: req, Subset: sub, Rereg: rr, Extra: extras[(sub+rr+1+mi)%len(extras)]}
 					ctx.Eval(ev.HS(cs.Desc()))
 					if n%4000 == 0 {
 						ctx.Sample(cs.Desc())
@@ -363,6 +390,9 @@ func runC09(ctx *ev.Ctx) {
 		maxLen = 6
 	}
 	for mi := range c09Msgs {
+		if c09Msgs[mi].Undefined {
+			continue
+		}
 		for _, req := range []bool{true, false} {
 			var rec func(cur []int)
 			rec = func(cur []int) {
@@ -392,8 +422,8 @@ func runC09(ctx *ev.Ctx) {
 	}
 	ctx.Set("histories", hn)
 	ctx.Set("distinct_selected_handlers", len(outcomes)+1)
-	ctx.Rule = "histories: every sequence of <=5 (thorough 6) operations over {register one of the eight keys with a fresh handler, dispatch, dispatch during which the selected handler panics and the caller recovers as the serve loop does (at most once)} ending in a dispatch, replayed on one ServeMux with every dispatch compared with a reference model (map key -> latest handler; index, then name, then catch-all); AND the complete decision table: for 7 message keys (base CE, application CC, RA under Gx which redefines it, RA under S6a which resolves through the base dictionary, and three messages carrying a private dictionary whose base application defines a command the default dictionary lacks and names code 280 differently) x request/answer: all 2^8 subsets of the registrations {index K, index with other application, other code, other R bit, name of K, name with the other suffix, name of another command, ALL}, and every single re-registration of a present key with a second handler; the handler that fires and the number of error reports are compared with the reference decision (index, then name, then catch-all, else exactly one report)."
-	ctx.Assume = []string{"restricted to commands the dictionary defines (incoming messages have passed ReadMessage)"}
+	ctx.Rule = "histories: every sequence of <=5 (thorough 6) operations over {register one of the eight keys with a fresh handler, dispatch, dispatch during which the selected handler panics and the caller recovers as the serve loop does (at most once)} ending in a dispatch, replayed on one ServeMux with every dispatch compared with a reference model (map key -> latest handler; index, then name, then catch-all); AND the complete decision table: for 7 message keys (base CE, application CC, RA under Gx which redefines it, RA under S6a which resolves through the base dictionary, and three messages carrying a private dictionary whose base application defines a command the default dictionary lacks and names code 280 differently; plus three (application, code) pairs whose command exists only in an application that the AVP parent table - not command lookup - leads to: only the catch-all may see those) x request/answer (the other command flag bits P, E, T and the reserved bits rotate with the case: only R selects): all 2^8 subsets of the registrations {index K, index with other application, other code, other R bit, name of K, name with the other suffix, name of another command, ALL}, and every single re-registration of a present key with a second handler; the handler that fires and the number of error reports are compared with the reference decision (index, then name, then catch-all, else exactly one report)."
+	ctx.Assume = []string{"exact-index and name registrations are judged for commands the dictionary defines (incoming messages have passed ReadMessage); for undefined commands only the catch-all / error-report rows are judged"}
 }
 
 func replayC09(ctx *ev.Ctx, raw json.RawMessage) string {
